@@ -433,6 +433,12 @@ impl SysSpec {
 }
 
 pub fn run(sc: &Scenario) -> String {
+    run_lines(&sc.lines, None, None)
+}
+
+/// runs MC scenario lines; `pre` = an already created checker (hand-off from a simulation) and the nodes of
+/// processes 0 and 1 (for the predicate battery)
+pub fn run_lines(lines: &[String], pre: Option<ModelChecker>, pre_nodes: Option<(u64, u64)>) -> String {
     let mut out = String::new();
     let mut spec = SysSpec::new();
     let mut verbose = false;
@@ -443,9 +449,9 @@ pub fn run(sc: &Scenario) -> String {
         prune: vec!["NONE".into()],
         collect: vec!["NONE".into()],
     };
-    let mut checker: Option<(System, ModelChecker)> = None;
+    let mut checker: Option<ModelChecker> = pre;
     let mut last_collected: HashSet<McState> = HashSet::new();
-    for line in &sc.lines {
+    for line in lines {
         let mut t = Toks::new(line);
         let kw = t.tok();
         if spec.parse_line(kw, &mut t) {
@@ -487,14 +493,13 @@ pub fn run(sc: &Scenario) -> String {
                 writeln!(out, "{}", kw).unwrap();
                 {
                     let node_of = |p: u64| spec.procs.iter().find(|x| x.0 == p).map(|x| x.1).unwrap_or(0);
-                    BATTERY_NODES.with(|c| c.set((node_of(0), node_of(1))));
+                    BATTERY_NODES.with(|c| c.set(pre_nodes.unwrap_or((node_of(0), node_of(1)))));
                 }
                 if checker.is_none() {
                     let sys = spec.build(12345);
-                    let mc = ModelChecker::new(&sys);
-                    checker = Some((sys, mc));
+                    checker = Some(ModelChecker::new(&sys));
                 }
-                let mc = &mut checker.as_mut().unwrap().1;
+                let mc = checker.as_mut().unwrap();
                 let before = mc.verif_system().verif_get_state();
                 writeln!(out, "BEFORE {}", state_line(&ps, &before, verbose)).unwrap();
                 let rec: Recorder = Rc::new(RefCell::new(vec![]));
